@@ -488,6 +488,12 @@ class AObjSource:
             raise StopAsyncIteration
         return r[0]
 
+    def __eq__(self, other):        # see AObjProxy: distinct sources compare equal
+        return isinstance(other, (AObjProxy, AObjSource))
+
+    def __hash__(self):
+        return 7
+
     async def aclose(self):
         for j in range(self.close_susp):
             await Susp(["close", self.st.name, j])
@@ -504,17 +510,30 @@ class AObjProxy:
     every other attribute - `aclose` included - through `__getattr__`.  `hasattr(p, "aclose")` is true, a *static*
     look-up (`inspect.getattr_static`, which runtime-checkable protocols use since Python 3.12) does not find it."""
 
-    def __init__(self, inner):
+    def __init__(self, inner, strict_aiter=False):
         self._inner = inner
+        # an async iterable whose `__aiter__` DOES something: it must be called (once) before the first `__anext__`
+        self._need_aiter = strict_aiter
 
     def __aiter__(self):
+        self._need_aiter = False
         return self
 
     def __anext__(self):
+        if self._need_aiter:
+            raise RuntimeError("__anext__ called on an async iterable whose __aiter__ was never called")
         return self._inner.__anext__()
 
     def __getattr__(self, name):
         return getattr(self._inner, name)
+
+    # value-based equality: all instrumented class-based sources compare EQUAL (and hash alike) although they are distinct
+    # objects - bookkeeping that finds "its" iterator with `==` / `in` / `list.remove` instead of identity goes wrong
+    def __eq__(self, other):
+        return isinstance(other, (AObjProxy, AObjSource))
+
+    def __hash__(self):
+        return 7
 
 
 class AObjNoCloseSource:
@@ -560,7 +579,7 @@ def make_source(kind, script, name, log, susp=0, close_susp=0):
     elif kind == "aobj":
         obj = AObjSource(script, st, log, susp, close_susp)
         if (len(script) + (name if isinstance(name, int) else 0)) % 2 == 1 and not os.environ.get("VERIF_NO_PROXY_SOURCES"):
-            obj = AObjProxy(obj)    # every second class-based source offers `aclose` only dynamically
+            obj = AObjProxy(obj, strict_aiter=True)    # every second class-based source offers `aclose` only dynamically
     elif kind == "aobj_nc":
         obj = AObjNoCloseSource(script, st, log, susp)
     else:
